@@ -730,6 +730,10 @@ func (r *Runner) runPar(ctx context.Context, st *Stack, b *Base, op Op) {
 				r.Log.Emit(ev)
 			}
 		}
+		r.Ctl.CloseFn = func() {
+			_ = st.Close(ctx)
+			r.Log.Emit(Ev{"ev": "CloseStore"})
+		}
 		r.Ctl.StartFn = func(rid string) { run(byID[rid]) }
 		r.Ctl.StartGating(ids, lazy)
 	}
